@@ -28,15 +28,16 @@ def classify(monitor, item, spec, res):
         if p.startswith("class") and p[5:].isdigit():
             cls = int(p[5:])
     cname = res.get("class_names", {}).get(str(cls)) if cls is not None else None
-    cdef = next((c for c in spec["classes"] if c["name"] == cname), None)
+    cdef = next((c for c in spec.get("classes", []) if c["name"] == cname), None)
     if monitor in ("overlap", "count"):
         mt = int(cfg.get("max_tries", 1) or 1)
         mct = cfg.get("max_concurrent_tries")
         if mct is not None and int(mct) > max(mt, 1) and monitor == "count":
             return "count:mct>max_tries"
-        if monitor == "count" and cdef is not None and cdef.get("root_of") and mt > 1:
+        is_root = (cdef is not None and cdef.get("root_of")) or "o" in res.get("class_flags", {}).get(str(cls), "")
+        if monitor == "count" and is_root and mt > 1:
             return "count:object-root-creation-hidden-from-retry-budget"
-        if cdef is not None and cdef.get("root_of"):
+        if is_root:
             feats.append("object-root")
         if cdef is not None and cdef.get("set"):
             feats.append("stateful")
@@ -77,13 +78,33 @@ def _one(args):
     os.chdir(scratch)
     rng = random.Random(seed * 1000003 + idx)
     spec = travlib.gen_spec(rng, profile)
+    if rng.random() < 0.3:
+        spec["lazy"] = True      # flat leaves expanded on demand during the traversal (monitors only, see DESIGN.md 11.2)
     return _run_spec(spec, monitors, (seed, idx, profile))
+
+
+def _one_parsed(args):
+    seed, idx, monitors, scratch = args
+    import logging
+    import warnings
+    warnings.filterwarnings("ignore")
+    logging.disable(logging.CRITICAL)
+    os.chdir(scratch)
+    os.environ["HOME"] = scratch
+    import travparsed
+    rng = random.Random(seed * 7000003 + idx)
+    spec = travparsed.gen_parsed_spec(rng)
+    return _run_spec(spec, monitors, (seed, idx, "parsed"))
 
 
 def _run_spec(spec, monitors, ident):
     t0 = time.time()
     try:
-        res = travlib.run_case(spec, vlib.driver, monitors=monitors)
+        run_cls = None
+        if spec.get("parsed"):
+            import travparsed
+            run_cls = travparsed.ParsedRun
+        res = travlib.run_case(spec, vlib.driver, monitors=monitors, run_cls=run_cls)
     except Exception as e:  # harness problem, not a verdict
         import traceback
         return {"ident": ident, "error": traceback.format_exc()[-1500:], "spec": spec}
@@ -103,7 +124,7 @@ def _run_spec(spec, monitors, ident):
     return res
 
 
-def family_run(ctx, monitors, n_cases, profiles=PROFILES, procs=14, corpus=None, label="trav", seed_offset=0):
+def family_run(ctx, monitors, n_cases, profiles=PROFILES, procs=14, corpus=None, label="trav", seed_offset=0, n_parsed=0):
     scratch = ctx.mkscratch()
     jobs = [(ctx.seed + seed_offset, i, profiles[i % len(profiles)], monitors, scratch) for i in range(n_cases)]
     results = []
@@ -113,8 +134,12 @@ def family_run(ctx, monitors, n_cases, profiles=PROFILES, procs=14, corpus=None,
             if f.endswith(".json"):
                 os.chdir(scratch)
                 results.append(_run_spec(json.load(open(os.path.join(corpus, f)))["spec"], monitors, ("corpus", f, "")))
+    pjobs = [(ctx.seed + seed_offset, i, monitors, scratch) for i in range(n_parsed)]
     with multiprocessing.get_context("fork").Pool(procs) as pool:
+        pending = pool.imap_unordered(_one_parsed, pjobs, chunksize=1)     # the slow ones first
         for r in pool.imap_unordered(_one, jobs, chunksize=2):
+            results.append(r)
+        for r in pending:
             results.append(r)
     judge(ctx, results, monitors, label)
     return results
@@ -125,8 +150,13 @@ def judge(ctx, results, monitors, label="trav"):
         if "error" in r:
             raise RuntimeError(f"traversal harness failed on case {r['ident']}: {r['error']}")
         spec = r["spec"]
+        if spec.get("parsed"):
+            ctx.count("graph=parsed-shipped-suite")
+            ctx.count("parsed:" + spec["parsed"]["tests_str"].replace("\n", ";") + " nets=" + spec["parsed"]["nets"])
+        else:
+            ctx.count("graph=synthetic")
         case = {"kind": label, "ident": list(r["ident"]), "workers": [w["id"] for w in spec["workers"]],
-                "cfg": spec["cfg"], "classes": len(spec["classes"]), "executions": r["n_exec"],
+                "cfg": spec["cfg"], "classes": len(spec.get("classes", [])), "executions": r["n_exec"],
                 "statuses": r["statuses"]}
         ctx.case(case, nontrivial=r["n_exec"] > 2)
         ctx.count(f"workers={len(spec['workers'])}")
@@ -134,6 +164,7 @@ def judge(ctx, results, monitors, label="trav"):
         ctx.count("scope=" + ("full" if len(spec["cfg"].get("pool_scope", "").split()) == 4 else "narrowed"))
         ctx.count("retries" if int(spec["cfg"].get("max_tries", 1) or 1) > 1 else "no-retries")
         ctx.count("initial-pool" if spec.get("pool") else "empty-pool")
+        ctx.count("lazy-expansion" if spec.get("lazy") else "pre-parsed")
         for k in ("sleep", "door"):
             if r["kinds"].get(k):
                 ctx.count(f"runs-with-{k}")
